@@ -51,6 +51,8 @@ def gen_config(rng, tier, profile):
   else:
     s['MAX_UPDATES_PER_SECOND'] = float('inf')
     s['MAX_CREATES_PER_MINUTE'] = float('inf')
+  if profile == 'c03' and rng.random() < 0.1:
+    s['CARBON_METRIC_INTERVAL'] = rng.choice([5, 10, 30])    # counters are reported and reset at ticks
   if profile == 'c10' and rng.random() < 0.25:
     s['CARBON_METRIC_INTERVAL'] = rng.choice([5, 10, 30])    # the daemon reports its own counters
   cfg = {'daemon': 'cache', 'settings': s, 'files': {}, 'profile': profile}
